@@ -47,6 +47,8 @@ pub open spec fn trim_end_spec(s: Seq<char>) -> Seq<char> decreases s.len() {
 }
 pub open spec fn trim_spec(s: Seq<char>) -> Seq<char> { trim_end_spec(trim_start_spec(s)) }
 pub assume_specification [ str::trim ] (s: &str) -> (r: &str) ensures r@ == trim_spec(s@);
+pub assume_specification [ str::trim_end ] (s: &str) -> (r: &str) ensures r@ == trim_end_spec(s@);
+pub assume_specification [ str::trim_start ] (s: &str) -> (r: &str) ensures r@ == trim_start_spec(s@);
 pub open spec fn starts_with_spec(s: Seq<char>, p: Seq<char>) -> bool { p.len() <= s.len() && s.subrange(0, p.len() as int) == p }
 pub open spec fn ends_with_spec(s: Seq<char>, p: Seq<char>) -> bool { p.len() <= s.len() && s.subrange(s.len() - p.len(), s.len() as int) == p }
 /// the patterns std accepts for starts_with / ends_with that occur in the code (or in small edits of it)
